@@ -425,11 +425,21 @@ fn create_file<P1: AsRef<Path>>(
         );
         err
     })?;
-    if !containing_directory.starts_with(output_dir) {
+    if !containing_directory.starts_with(&output_dir) {
         eprintln!(
             " [!] Skipping file \"{}\" because it would be extracted outside of the output directory, in {}",
             fname,
             containing_directory.display()
+        );
+        return Ok(None);
+    }
+    // Ensure that the file itself, if it already exists as a symbolic link,
+    // does not lead outside of the output dir
+    if fs::symlink_metadata(&extracted_path).is_ok_and(|metadata| metadata.file_type().is_symlink())
+        && !fs::canonicalize(&extracted_path).is_ok_and(|target| target.starts_with(&output_dir))
+    {
+        eprintln!(
+            " [!] Skipping file \"{fname}\" because it would be extracted through a symbolic link leading outside of the output directory"
         );
         return Ok(None);
     }
